@@ -96,6 +96,8 @@ type c05TRun struct {
 	books   bool              // Fails differed from the books
 	pending int               // host selected and not yet forwarded to (-1 none)
 	notes   []string
+	lastEnd time.Duration // real offset at which the previous event ended (the code sleeps try_interval from there)
+	first   bool
 	abort   int32 // set by the watchdog: the next Select / forward panics out of a loop that does not end
 }
 
@@ -122,6 +124,17 @@ func (u *c05Up) Select(req *http.Request) *proxy.UpstreamHost {
 		panic(c05Abort{})
 	}
 	now := time.Since(r.t0)
+	// relative margins: the loop reaches Select try_interval after the previous event ended (at once
+	// for the first one); a stall of the machine shows here even when it is a whole number of units
+	gap, want := now-r.lastEnd, time.Duration(r.in.TI)*r.grid
+	if !r.first {
+		want = 0
+	}
+	r.first = true
+	if gap > want+r.grid/4 || gap < want-r.grid/8 {
+		r.margin = true
+	}
+	r.lastEnd = now
 	// the other requests let go of what they held during the previous iteration
 	for i, h := range r.hosts {
 		if r.held[i] {
@@ -221,6 +234,9 @@ func (t *c05Transport) RoundTrip(req *http.Request) (*http.Response, error) {
 	now := time.Since(r.t0)
 	k := int((now + r.grid/2) / r.grid)
 	tk := r.tick(now)
+	if now-r.lastEnd > r.grid/4 {
+		r.margin = true // stall between Select and the forward
+	}
 	st := r.cur[t.host]
 	if r.pending != t.host {
 		r.notes = append(r.notes, fmt.Sprintf("forward to host %d that was not the pending selection %d", t.host, r.pending))
@@ -257,6 +273,10 @@ func (t *c05Transport) RoundTrip(req *http.Request) (*http.Response, error) {
 		time.Sleep(time.Until(r.t0.Add(time.Duration(k+st.D) * r.grid)))
 	}
 	end := time.Since(r.t0)
+	if d := end - now - time.Duration(st.D)*r.grid; d > r.grid/4 || d < -r.grid/4 {
+		r.margin = true // the forward did not take its scripted time
+	}
+	r.lastEnd = end
 	ok := st.K == "ok" && rx == "RxFull" || st.K == "rf" // "rf": the code forwarded although the host was full
 	ev := c05Ev{kind: "attempt", t: tk, host: t.host, k: c05Kinds[st.K], rx: rx, ok: ok, te: r.tick(end), rxInfo: info}
 	r.events = append(r.events, ev)
@@ -381,7 +401,11 @@ func c05Timed(in *c05In, scale int) (Result, int) {
 			}
 		}()
 		status, serr = p.ServeHTTP(rec, req)
-		tEnd = run.tick(time.Since(run.t0))
+		end := time.Since(run.t0)
+		if end-run.lastEnd > grid/4 {
+			run.margin = true
+		}
+		tEnd = run.tick(end)
 	}()
 	select {
 	case <-done:
@@ -489,13 +513,20 @@ func c05Timed(in *c05In, scale int) (Result, int) {
 func c05RunTimed(in *c05In) Result {
 	var res Result
 	status := 0
+	var terms []string
 	for _, scale := range []int{1, 2, 4} {
 		res, status = c05Timed(in, scale)
 		if status == 0 {
 			return res
 		}
+		terms = append(terms, res.Term)
 	}
 	if status == 2 {
+		if terms[0] == terms[1] && terms[1] == terms[2] {
+			// the same deviation from the expected timing at three different units is not the machine:
+			// it is how the code behaves, and is judged
+			return res
+		}
 		return c05SkipT("real-time margins missed in 3 runs", "retryt:timing-invalid")
 	}
 	return res
@@ -533,9 +564,9 @@ func c05GenTimed(r *Rand, tier string) []interface{} {
 			}
 		}
 	}
-	nRandom := 230
+	nRandom := 520
 	if tier == "thorough" {
-		nRandom = 2600
+		nRandom = 6000
 	}
 	for i := 0; i < nRandom; i++ {
 		n := r.Range(1, 4)
